@@ -141,6 +141,7 @@ func runCheck(prop, tier string, seed int, t0 time.Time) int {
 	var fnErrs []string
 	var fnList []map[string]interface{}
 	assumptions := map[string]bool{}
+	contractFiles := map[string]bool{}
 	var samples []map[string]interface{}
 	kinds := map[string]int{}
 	unsup := map[string]bool{}
@@ -196,6 +197,9 @@ func runCheck(prop, tier string, seed int, t0 time.Time) int {
 		for a := range e.used {
 			assumptions[a] = true
 		}
+		if e.fc != nil && e.fc.File != "" {
+			contractFiles[e.fc.File] = true
+		}
 		// a precondition of an exported function excludes inputs of the claim: list it
 		if e.fc != nil && e.fn.Parent() == nil && token.IsExported(e.fn.Name()) {
 			for _, cl := range e.fc.Requires {
@@ -213,6 +217,9 @@ func runCheck(prop, tier string, seed int, t0 time.Time) int {
 	}
 	// free-text assumptions of a spec file are listed when one of that file's contracts was actually used
 	usedFiles := map[string]bool{}
+	for f := range contractFiles {
+		usedFiles[f] = true // an assume-text in a contract file goes with the functions that file puts under contract
+	}
 	for a := range assumptions {
 		if strings.HasPrefix(a, "assumed contract: ") {
 			if fc := w.C.Funcs[normalizeFnKey(strings.TrimPrefix(a, "assumed contract: "))]; fc != nil {
@@ -221,7 +228,7 @@ func runCheck(prop, tier string, seed int, t0 time.Time) int {
 		}
 	}
 	for _, a := range w.C.Assumes {
-		if f, ok := w.C.AssumeFile[a]; !ok || usedFiles[f] || !strings.HasSuffix(f, ".spec") {
+		if f, ok := w.C.AssumeFile[a]; !ok || usedFiles[f] {
 			assumptions[a] = true
 		}
 	}
